@@ -21,6 +21,7 @@ EXPLANATION = (
     "the two margins is a sum-preserving pair (+shift / -shift) or the final non-clip clamp; (4) GridFlow: the space budget of the row-wrap test exceeds the row's drawn width by exactly "
     "one separator, i.e. a cell is added to a row only if separator + cell still fit."
     ' Added after seed round 3: (5) AXIS - placement options reach parameters of their own axis (align/width/left/right vs valign/height/top/bottom) and no argument carries the name of a different parameter; (6) ACCUM - Columns.column_widths charges / refunds its budget for every column it passes.'
+    ' Round 4: (7) the space a relative size is a percentage of is clamped to >= 0 before scaling, in both placement helpers; (8) memo vs child queries (C06.7).'
 )
 NOT_DECIDED = "Non-negativity of every child dimension, proportionality within one column, focus-column visibility, min-width interaction beyond the ordering clause, alignment rounding - integer-rounding properties over ranges."
 ASSUMPTIONS = []
